@@ -1,4 +1,4 @@
-mod ctx; mod model; mod rng; mod util; mod props; mod chartable; mod render; mod gen; mod corpus; mod wf; mod recipe_sexp;
+mod ctx; mod model; mod rng; mod util; mod props; mod chartable; mod render; mod gen; mod corpus; mod wf; mod recipe_sexp; mod fm;
 use ctx::{Ctx, Known};
 
 fn load_known(path: &str) -> Vec<Known> {
